@@ -1867,7 +1867,9 @@ class LinearOperator(object):
         from linear_operator.operators.zero_linear_operator import ZeroLinearOperator
 
         if isinstance(other, ZeroLinearOperator):
-            return other
+            # refuse what (dense) multiplication refuses; the product has the broadcast shape
+            shape = torch.broadcast_shapes(self.shape, other.shape)
+            return other if shape == other.shape else ZeroLinearOperator(*shape, dtype=other.dtype, device=other.device)
 
         if not (torch.is_tensor(other) or isinstance(other, LinearOperator)):
             other = torch.tensor(other, dtype=self.dtype, device=self.device)
